@@ -547,6 +547,9 @@ func (g *Graph) GuardedBy(n, cond ast.Node, wantTrue bool) bool {
 		return false
 	}
 	target := g.Atoms[pn.Block][pn.Idx]
+	// when cond is a nil test of a variable, later nil tests of plain copies of that variable have a known outcome on the
+	// branch being explored (`if err != nil { ret = err; goto out }; ...; out: err2 = ret; if err2 != nil {...}`)
+	corr := g.nilCorrelation(cond, !wantTrue)
 	p := g.Search(Query{
 		From:   cond,
 		Target: func(a ast.Node) bool { return a == target },
@@ -555,10 +558,181 @@ func (g *Graph) GuardedBy(n, cond ast.Node, wantTrue bool) bool {
 			if int(from.Index) == pc.Block {
 				return i == other
 			}
+			if corr != nil {
+				if want, known := corr(from); known {
+					return (i == 0) == want
+				}
+			}
 			return true
 		},
 	})
 	return !p.Found
+}
+
+// nilTestOf: e is `x == nil` / `x != nil` (possibly negated) on an identifier; nonNilWhenTrue tells which outcome means x != nil.
+func (g *Graph) nilTestOf(e ast.Expr) (obj types.Object, nonNilWhenTrue, ok bool) {
+	neg := false
+	for {
+		e = Unparen(e)
+		u, isU := e.(*ast.UnaryExpr)
+		if !isU || u.Op != token.NOT {
+			break
+		}
+		neg = !neg
+		e = u.X
+	}
+	be, isB := e.(*ast.BinaryExpr)
+	if !isB || (be.Op != token.EQL && be.Op != token.NEQ) {
+		return nil, false, false
+	}
+	x, y := Unparen(be.X), Unparen(be.Y)
+	isNil := func(z ast.Expr) bool {
+		id, ok := z.(*ast.Ident)
+		if !ok {
+			return false
+		}
+		_, isNilObj := g.Info.Uses[id].(*types.Nil)
+		return isNilObj
+	}
+	var id *ast.Ident
+	switch {
+	case isNil(y):
+		id, _ = x.(*ast.Ident)
+	case isNil(x):
+		id, _ = y.(*ast.Ident)
+	}
+	if id == nil {
+		return nil, false, false
+	}
+	o := g.Info.ObjectOf(id)
+	if o == nil {
+		return nil, false, false
+	}
+	return o, (be.Op == token.NEQ) != neg, true
+}
+
+// nilCorrelation returns, for the branch of cond on which its variable is non-nil (isNonNil) or nil, a function that
+// tells the outcome of later nil tests of copies of that variable. Copies are found flow-insensitively in the body
+// (`w = v`, `w := v`); a variable that is also assigned anything else is not a plain copy.
+func (g *Graph) nilCorrelation(cond ast.Node, branchTaken bool) func(b *cfg.Block) (bool, bool) {
+	ce, ok := cond.(ast.Expr)
+	if !ok || g.Body == nil {
+		return nil
+	}
+	v, nonNilWhenTrue, ok := g.nilTestOf(ce)
+	if !ok {
+		return nil
+	}
+	isNonNil := branchTaken == nonNilWhenTrue
+	// copies of v: variables all of whose assignments are from members of the set or the nil / non-nil constant consistent with it
+	copies := map[types.Object]bool{v: true}
+	for changed := true; changed; {
+		changed = false
+		ast.Inspect(g.Body, func(m ast.Node) bool {
+			as, ok := m.(*ast.AssignStmt)
+			if !ok || len(as.Lhs) != len(as.Rhs) {
+				return true
+			}
+			for i := range as.Lhs {
+				l, lok := Unparen(as.Lhs[i]).(*ast.Ident)
+				r, rok := Unparen(as.Rhs[i]).(*ast.Ident)
+				if lok && rok {
+					lo, ro := g.Info.ObjectOf(l), g.Info.ObjectOf(r)
+					if lo != nil && ro != nil && copies[ro] && !copies[lo] {
+						copies[lo] = true
+						changed = true
+					}
+				}
+			}
+			return true
+		})
+	}
+	if len(copies) == 1 {
+		return nil
+	}
+	// a copy that is also assigned something that is not a member (a fresh call result, ...) is only a copy on the paths
+	// where that assignment did not happen; be conservative: such variables are excluded, except v itself
+	impure := map[types.Object]bool{}
+	impureAt := map[types.Object][]ast.Node{}
+	ast.Inspect(g.Body, func(m ast.Node) bool {
+		as, ok := m.(*ast.AssignStmt)
+		if !ok {
+			return true
+		}
+		defer func() {
+			for _, lx := range as.Lhs {
+				if l, lok := Unparen(lx).(*ast.Ident); lok {
+					if lo := g.Info.ObjectOf(l); lo != nil && impure[lo] {
+						impureAt[lo] = append(impureAt[lo], as)
+					}
+				}
+			}
+		}()
+		for i, lx := range as.Lhs {
+			l, lok := Unparen(lx).(*ast.Ident)
+			if !lok {
+				continue
+			}
+			lo := g.Info.ObjectOf(l)
+			if lo == nil || !copies[lo] || lo == v {
+				continue
+			}
+			if len(as.Lhs) != len(as.Rhs) {
+				impure[lo] = true
+				continue
+			}
+			r, rok := Unparen(as.Rhs[i]).(*ast.Ident)
+			if !rok {
+				impure[lo] = true
+				continue
+			}
+			ro := g.Info.ObjectOf(r)
+			if _, isNilObj := ro.(*types.Nil); isNilObj && !isNonNil {
+				continue // assigning nil on the nil branch is consistent
+			}
+			if ro == nil || !copies[ro] {
+				impure[lo] = true
+			}
+		}
+		return true
+	})
+	return func(b *cfg.Block) (bool, bool) {
+		cd, _ := g.Cond(b)
+		if cd == nil || cd == ce {
+			return false, false
+		}
+		w, nn, ok := g.nilTestOf(cd)
+		if !ok || !copies[w] || w == v {
+			return false, false
+		}
+		if impure[w] {
+			// w also receives other values: it is a copy at this test only if none of those assignments can happen between
+			// cond (on the branch taken) and the test
+			pc := g.loc[cond]
+			first := 1
+			if branchTaken {
+				first = 0
+			}
+			for _, ia := range impureAt[w] {
+				at := g.AtomOf(ia)
+				if at == nil {
+					return false, false
+				}
+				q := g.Search(Query{From: cond, Target: func(y ast.Node) bool { return y == at }, Avoid: func(y ast.Node) bool { return y == ast.Node(cd) },
+					Edges: func(from *cfg.Block, i int) bool {
+						if int(from.Index) == pc.Block {
+							return i == first
+						}
+						return true
+					}})
+				if q.Found {
+					return false, false
+				}
+			}
+		}
+		// outcome of the test given that w is non-nil / nil
+		return isNonNil == nn, true
+	}
 }
 
 // CondAtoms returns all block-ending condition atoms satisfying pred.
